@@ -103,7 +103,7 @@ Print Assumptions C11_accepted_traces_are_model_traces.
 (* non-vacuity *)
 Definition ex_pool : params :=
   mkParams [mkSpec 7 UntilRunDone OnSignal RWC; mkSpec 8 NonBlocking OnSignal RPlain;
-            mkSpec 9 UntilRunDone OnSignal RNone] true true false.
+            mkSpec 9 UntilRunDone OnSignal RNone] true true true true.
 
 Example C11_nonvacuous_membership :
   membership_changed ex_pool [(0, 1); (1, 2); (2, 3)]%N [(2, 0); (0, 5); (1, 5)]%N = false /\
@@ -121,7 +121,7 @@ Definition ex_sched : list label :=
    LRlPlain 0 1%N; LRlCfg 0 0%N 3%N; LRlFinish 0; LRlRet 0;
    LReloadCall 1; LRlLock 1; LCb (ORel 1) (CbSome [(1, 4); (2, 9)]%N);
    LStopBegin (ORel 1); LWCall 0 0%N; LWCall 1 1%N; LWRet 1 1%N; LKExit 0 0%N None; LKExit 1 1%N None;
-   LWUnblock 0; LWRet 0 0%N; LStopJoin (ORel 1); LRlSetCfg 1; LBootLock (ORel 1); LBootLaunch (ORel 1);
+   LWUnblock 0; LWRet 0 0%N; LStopCancel (ORel 1); LStopJoin (ORel 1); LRlSetCfg 1; LBootLock (ORel 1); LBootLaunch (ORel 1);
    LRlFinish 1; LRlRet 1;
    LReloadCall 2; LRlLock 2; LCb (ORel 2) CbErr; LRlRet 2].
 
